@@ -33,7 +33,7 @@ def run(chk, repo, tier):
     rescaled_copy_rule(chk, repo, 'C13-c')
     chk.clause('C13-d', 'no internal call relies on the hard-coded default wavelength unit', 5)
     chk.clause('C13-e', 'the result is a new Spectrum; scalar/vector operands (numpy scalars included) keep the wavelength grid', 5)
-    chk.clause('C13-f', 'common grid built symmetrically; both operands sampled and filled the same way', 3)
+    chk.clause('C13-f', 'common grid built symmetrically; both operands sampled and filled the same way, each through its own class', 4)
     chk.clause('C13-g', 'operand samples are taken on the closed range of the operand; min sampling over both operands', 2)
     chk.not_decided += ['interpolated values', 'grid construction numerics']
 
@@ -299,6 +299,14 @@ def run(chk, repo, tier):
             any(x in w(o1, 'amax') for x in ha[2]) and any(x in w(o2, 'amax') for x in ha[2])
         chk.ob('C13-f', 'N-symmetric', fi.key, f'grid spans min of the minima to max of the maxima of both operands [{tag}]',
                sym_lo and sym_hi, f'linspace({fmt(lo)[:100]}, {fmt(hi)[:100]}, ...)', fi.loc(lin[0].node))
+        # an operand may be a subclass with a sample() of its own (a Blackbody evaluates Planck's law): what is sampled is the
+        # operand or a copy of it, never a plain Spectrum rebuilt from its tabulated samples
+        built = {nf.vkey(e.data.get('result')): e for e in p.events if e.kind == 'call' and e.data.get('new')}
+        rebuilt = [f'{built[nf.vkey(o)].data.get("new")}(...) built at {built[nf.vkey(o)].loc()}' for o in (o1, o2)
+                   if isinstance(o, Poly) and nf.vkey(o) in built]
+        chk.ob('C13-f', 'T-class', fi.key, f'each operand is sampled through its own class (copies keep the class) [{tag}]', not rebuilt,
+               ('sampled object: ' + '; '.join(rebuilt) + ' - a Blackbody operand would be interpolated from its table instead of '
+                'evaluated by its own sample()') if rebuilt else 'the operands or copies of them', fi.loc(smp[1].node))
         # when the second operand was converted, nothing of the common grid may come from its unconverted wavelengths
         if o2 != S('s2'):
             raw = {nf.attr(S('s2'), 'wave').single_atom(), nf.attr(S('s2'), '_wave').single_atom()}
